@@ -6,6 +6,7 @@ import (
 	"fmt"
 	"os"
 	"path/filepath"
+	"runtime/debug"
 	"testing"
 	"testing/synctest"
 	"time"
@@ -18,11 +19,32 @@ import (
 func init() { labs["life"] = labLife }
 
 // kind 15: one protocol entry point with one injected fault
-//   input (15 variant (n_send n_deadline n_read) op k class)   op: 0 open 1 filter 2 send 3 set-deadline 4 read; class: 0 fatal 1 deadline 2 zero-length
-//   impl  (status cause_kept result_nil opened (src_closes snk_closes used_after_close)... goroutines_left)
+//
+//	input (15 variant (n_send n_deadline n_read) op k class)   op: 0 open 1 filter 2 send 3 set-deadline 4 read; class: 0 fatal 1 deadline 2 zero-length
+//	impl  (status cause_kept result_nil opened (src_closes snk_closes used_after_close)... goroutines_left)
 var lifeOps = []string{"NewSourceSink", "SetPacketFilter", "WriteTo", "SetReadDeadline", "Read"}
 
-func runLife(t *testing.T, variant string, op, k, class int) (status int, kept, resNil bool, handles sxList, counts [5]int) {
+// openFDs counts this process's open file descriptors (the listing's own descriptor is in both counts that are compared).
+func openFDs() int {
+	es, err := os.ReadDir("/proc/self/fd")
+	if err != nil {
+		return -1
+	}
+	return len(es)
+}
+
+func runLife(t *testing.T, variant string, op, k, class int) (status int, kept, resNil bool, handles sxList, counts [5]int, fdLeak int) {
+	// sockets the run opens itself (the UDP socket that yields the local address and holds the source port, the TCP
+	// port-reservation listener) are real ones: with the collector off - a finalizer would close a forgotten socket and
+	// hide it - the number of open descriptors after the run must be what it was before
+	oldGC := debug.SetGCPercent(-1)
+	defer debug.SetGCPercent(oldGC)
+	fdBefore := openFDs()
+	defer func() {
+		if after := openFDs(); fdBefore >= 0 && after > fdBefore {
+			fdLeak = after - fdBefore
+		}
+	}()
 	synctest.Test(t, func(t *testing.T) {
 		f := &wireFactory{faults: newFaultPlan()}
 		if op >= 0 {
@@ -83,15 +105,15 @@ func labLife(e labEnv) {
 	tags := map[string]int{}
 	variants := []string{"udp", "icmp", "tcp", "udp6", "icmp6"}
 	for vi, v := range variants {
-		_, _, _, _, base := runLife(e.t, v, -1, 0, 0)
+		_, _, _, _, base, _ := runLife(e.t, v, -1, 0, 0)
 		plan := L(sxInt(int64(base[2])), sxInt(int64(base[3])), sxInt(int64(base[4])))
 		put := func(op, k, class int) {
-			st, kept, rn, hs, _ := runLife(e.t, v, op, k, class)
+			st, kept, rn, hs, _, fdLeak := runLife(e.t, v, op, k, class)
 			if hs == nil {
 				hs = sxList{}
 			}
 			w.put(L(sxInt(15), sxInt(int64(vi)), plan, sxInt(int64(op)), sxInt(int64(k)), sxInt(int64(class))),
-				L(sxInt(int64(st)), sxBool(kept), sxBool(rn), hs))
+				L(sxInt(int64(st)), sxBool(kept), sxBool(rn), hs, sxInt(int64(fdLeak))))
 			tags[fmt.Sprintf("%s:%s:class%d", v, lifeOps[op], class)]++
 		}
 		put(0, 1, 0)
